@@ -14,7 +14,6 @@ import (
 	"io"
 	"os"
 	"runtime"
-	"runtime/pprof"
 	"strconv"
 	"sync"
 	"time"
@@ -51,12 +50,11 @@ func main() {
 		tcpChild(c)
 		return
 	}
-	t0 := time.Now()
-	if p := os.Getenv("C08_CPUPROFILE"); p != "" {
-		fh, _ := os.Create(p)
-		_ = pprof.StartCPUProfile(fh)
-		defer pprof.StopCPUProfile()
+	if len(os.Args) >= 3 && os.Args[1] == "--replay" {
+		replay(c, os.Args[2])
+		return
 	}
+	t0 := time.Now()
 	c.Rule("streams of 1-6 syslog records (single- and multi-line, garbage/empty/look-alike lines at head, middle, tail; lengths 31/32/33; " +
 		"with and without final newline; soft limit at/above/below the longest record) run through the real multiLineReader under " +
 		"(a) every 0/1/2-cut split, (b) every (flush position x cut), (c) every (two flush positions x cut) for streams <= 72 bytes, " +
@@ -195,7 +193,6 @@ func main() {
 	}
 	c.JudgeRaces(anchors)
 
-	pprof.StopCPUProfile()
 	c.Require("reference_sanity_vectors_ok", int64(sanityVectors))
 	c.Require("records_observed", 100000)
 	c.Require("cases_exact_noflush", 100000)
